@@ -29,10 +29,12 @@ func Spec() ev.Spec {
 }
 
 const (
-	killBefore = "kill-before"
-	killAfter  = "kill-after"
-	errInstead = "error-instead"
-	sqlAbort   = "sql-abort" // the k-th ROW written to the headers table makes its SQL statement abort (trigger with RAISE(ABORT))
+	killBefore  = "kill-before"
+	killAfter   = "kill-after"
+	errInstead  = "error-instead"
+	errContinue = "error-then-carry-on" // the write fails, the submission is answered with an error, and ingestion goes on with the next headers in the same process (as the sync engines do); restart and redelivery only afterwards
+	commitFails = "commit-fails"        // the COMMIT of the k-th header INSERT is refused by SQLite (deferred foreign key raised by a trigger)
+	sqlAbort    = "sql-abort"           // the k-th ROW written to the headers table makes its SQL statement abort (trigger with RAISE(ABORT))
 )
 
 var kinds = []string{killBefore, killAfter, errInstead}
@@ -51,6 +53,20 @@ CREATE TRIGGER IF NOT EXISTS verif_upd BEFORE UPDATE ON headers BEGIN
   SELECT RAISE(ABORT, 'verif: injected storage failure') WHERE (SELECT n FROM verif_fault) < 0;
 END;`
 	sqlRemove = `DROP TRIGGER IF EXISTS verif_ins; DROP TRIGGER IF EXISTS verif_upd; DROP TABLE IF EXISTS verif_fault;`
+)
+
+const (
+	cfInstall = `
+CREATE TABLE IF NOT EXISTS verif_cf(n INTEGER);
+DELETE FROM verif_cf;
+INSERT INTO verif_cf VALUES (%d);
+CREATE TABLE IF NOT EXISTS verif_cf_parent(id INTEGER PRIMARY KEY);
+CREATE TABLE IF NOT EXISTS verif_cf_child(pid INTEGER REFERENCES verif_cf_parent(id) DEFERRABLE INITIALLY DEFERRED);
+CREATE TRIGGER IF NOT EXISTS verif_cf_ins AFTER INSERT ON headers BEGIN
+  UPDATE verif_cf SET n = n - 1;
+  INSERT INTO verif_cf_child SELECT 424242 WHERE (SELECT n FROM verif_cf) < 0;
+END;`
+	cfRemove = `DROP TRIGGER IF EXISTS verif_cf_ins; DROP TABLE IF EXISTS verif_cf_child; DROP TABLE IF EXISTS verif_cf_parent; DROP TABLE IF EXISTS verif_cf;`
 )
 
 func sqlRowsLeft(st *rig.Stack) int {
@@ -85,7 +101,7 @@ func (f *faultCtl) hooks() *deco.Hooks {
 				case killBefore:
 					f.fired, f.firedOp = true, label
 					f.die(deco.Crash{Op: op, Index: idx})
-				case errInstead:
+				case errInstead, errContinue:
 					f.fired, f.firedOp = true, label
 					f.writes++
 					return errors.New("verif: injected storage write failure")
@@ -206,7 +222,7 @@ func ingest(st *rig.Stack, hist gen.History, f *faultCtl) (acked []string, crash
 		if res.Err == nil {
 			acked = append(acked, h.HashOf().String())
 		}
-		if f.fired { // error-instead: stop ingesting at the failed write (weakest reading)
+		if f.fired && f.Kind != errContinue { // error-instead: stop ingesting at the failed write (weakest reading)
 			return acked, false, i, res
 		}
 	}
@@ -293,7 +309,32 @@ func (e *env) oneFault(caseID string, dir string, hist gen.History, baseline sna
 		defer st.Destroy()
 		var res rig.AddResult
 		var crashed bool
-		if kind == sqlAbort {
+		if kind == commitFails {
+			// the statement inserting the (k+1)-th header goes through, the COMMIT of its transaction is refused (and every
+			// later one, until the restart)
+			f.K = -1
+			if _, err := st.DB.Exec(fmt.Sprintf(cfInstall, k)); err != nil {
+				r.Violate("harness|commit-fault-install", err.Error(), caseID, nil)
+				return
+			}
+			for _, h := range hist.Hdrs {
+				res = st.Add(h)
+				if res.Panic != nil {
+					crashed = true
+					break
+				}
+				if res.Err == nil {
+					acked = append(acked, h.HashOf().String())
+				} else if c := res.Code(); c != "HeaderAlreadyExists" && c != "BlockRejected" {
+					break
+				}
+			}
+			f.fired, f.firedOp = true, cell
+			if _, err := st.DB.Exec(cfRemove); err != nil {
+				r.Violate("harness|commit-fault-remove", err.Error(), caseID, nil)
+				return
+			}
+		} else if kind == sqlAbort {
 			// fault INSIDE the SQL layer: the (k+1)-th row written to the headers table aborts its statement, and so does
 			// every later one until the triggers are removed (an I/O error that persists until the restart)
 			f.K = -1
@@ -365,6 +406,9 @@ func (e *env) oneFault(caseID string, dir string, hist gen.History, baseline sna
 		return
 	}
 	for _, h := range acked {
+		if kind == errContinue {
+			break // descendants delivered while their parent was missing are orphans: not comparable with the uninterrupted run
+		}
 		row, ok := post[h]
 		if !ok {
 			r.Violate("acked-missing|"+where, "acknowledged header "+h+" is missing after restart", caseID, detail)
@@ -404,7 +448,7 @@ func (e *env) oneFault(caseID string, dir string, hist gen.History, baseline sna
 			r.Violate("harness|snapshot", err.Error(), caseID, nil)
 			return
 		}
-		if fin.Digest() != baseline.Digest() {
+		if kind != errContinue && fin.Digest() != baseline.Digest() {
 			r.Violate("final-state-differs|"+where, fmt.Sprintf("after redelivery pass %d the store differs from the uninterrupted run: %s", pass, strings.Join(snapshotDiff(baseline, fin), "; ")), caseID, detail)
 			return
 		}
@@ -420,10 +464,12 @@ func (e *env) oneFault(caseID string, dir string, hist gen.History, baseline sna
 }
 
 func body(r *ev.Run) {
-	r.Rule("per history (constructed reorganisations of depth 1..D by equal-work overtaking, heavy sibling, light-then-heavy; branch switches, extensions, orphans, duplicates): the uninterrupted run counts W write calls at the repository interface (AddHeaderToDatabase/UpdateState, each one SQL transaction); then W x {kill-before, kill-after, error-instead} runs, one fault each, plus SQL-level faults (a trigger makes the statement writing the k-th ROW of the headers table abort - every row of multi-row relabel statements, a sample of the single-row ones), followed by restart (database.Init on the same file), invariant checks, and two full redeliveries compared row-for-row with the uninterrupted run. Plus reorganisations over 520 and 2010 (thorough: 1030 and 2010) heights with faults at the last submission's write boundaries and at rows 1, 500, 501, last of both relabelling statements. A seeded sample is repeated with a real SIGKILL of a child process. evaluations = fault runs; distinct = distinct structural cells (fault kind x operation and ordinal inside its submission x writes of that submission x first/middle/last submission x history length class x real-or-in-process kill); non-trivial = all (each has a fault).")
+	r.Rule("per history (constructed reorganisations of depth 1..D by equal-work overtaking, heavy sibling, light-then-heavy; branch switches, extensions, orphans, duplicates): the uninterrupted run counts W write calls at the repository interface (AddHeaderToDatabase/UpdateState, each one SQL transaction); then W x {kill-before, kill-after, error-instead, error-then-carry-on (ingestion goes on in the same process; judged by the structural invariant only)} runs, one fault each, plus refused COMMITs of the first / middle / last header INSERT (deferred foreign key raised by a trigger), plus SQL-level faults (a trigger makes the statement writing the k-th ROW of the headers table abort - every row of multi-row relabel statements, a sample of the single-row ones), followed by restart (database.Init on the same file), invariant checks, and two full redeliveries compared row-for-row with the uninterrupted run. Plus reorganisations over 520 and 2010 (thorough: 1030 and 2010) heights with faults at the last submission's write boundaries and at rows 1, 500, 501, last of both relabelling statements. A seeded sample is repeated with a real SIGKILL of a child process. evaluations = fault runs; distinct = distinct structural cells (fault kind x operation and ordinal inside its submission x writes of that submission x first/middle/last submission x history length class x real-or-in-process kill); non-trivial = all (each has a fault).")
 	r.Assume("a write boundary is a call of repository.Headers.AddHeaderToDatabase/UpdateState (each is one committed SQL transaction)", "after an injected write error ingestion stops and the service is restarted (weakest reading)", "SQLite only")
 	r.Require("faults_inside_reorg", 10)
 	r.Require("fault_runs_sql-abort", 50)
+	r.Require("fault_runs_"+errContinue, 100)
+	r.Require("fault_runs_"+commitFails, 30)
 	r.Require("sql_faults_inside_multi_row_statement", 5)
 	mb.ForbiddenHeaders()
 	e := &env{r: r}
@@ -569,6 +615,21 @@ func body(r *ev.Run) {
 						e.oneFault(sub+"/sigkill", dir, hist, baseline, k, kind, true, cells[k])
 						r.Case("", false)
 					}
+				}
+				// the write fails and ingestion carries on in the same process
+				e.oneFault(fmt.Sprintf("%s/w%d/%s", caseID, k, errContinue), dir, hist, baseline, k, errContinue, false, cells[k])
+				r.Case("", false)
+			}
+			// the COMMIT of a header's INSERT is refused: first, middle and last stored header
+			if nIns := len(baseline) - 1; nIns > 0 {
+				seen := map[int]bool{}
+				for _, k := range []int{0, nIns / 2, nIns - 1} {
+					if seen[k] {
+						continue
+					}
+					seen[k] = true
+					e.oneFault(fmt.Sprintf("%s/ins%d/%s", caseID, k, commitFails), dir, hist, baseline, k, commitFails, false, fmt.Sprintf("insert%d-of-%d|history-len-class=%d", min3(k, nIns-1), nIns, len(hist.Hdrs)/8))
+					r.Case("", false)
 				}
 			}
 			// SQL-level faults: count the rows written by the uninterrupted run, then abort at every row
